@@ -23,7 +23,7 @@ func init() {
 			"(L2) layout kinds: where the static Go type of element i is a string, integer, float, bool or time.Time, column i is declared with a SQL type of that kind (string←string, integer←integer, float←float|integer, datetime←time.Time, enum/set←string|integer), so a definition cannot land under the column of another attribute; " +
 			"(R1) registration: every entry of the information_schema registry (map literal of GetInformationSchemaTables plus the constant-key overrides in NewInformationSchemaDatabase) has key == table name, a readable non-empty schema whose columns all carry that table as Source, and a non-nil reader; every declared schema variable and every reader function is registered by exactly one entry (the shared empty reader excepted); " +
 			"(M1) live reads: no function of the information_schema package or of the SHOW executors assigns a package-level variable; the only fields of information_schema table objects written after construction are the frozen set (catalog handle, ROUTINES' per-statement procedure map, COLUMNS' column memo, partition cursor); a table type that memoises catalog objects in a field is constructed afresh by the database's GetTableInsensitive instead of being served from the long-lived registry; " +
-			"(E1) common enumeration: each of the ten tables of the property and each catalog-reading SHOW executor calls, inside its loop over all databases, the catalog interfaces that own the listed objects (GetTableNames/DBTableIter, ViewsInDatabase = ViewDatabase.AllViews + session view registry, GetIndexes, GetDeclaredForeignKeys, GetChecks, GetTriggers, GetStoredProcedures), the databases coming from AllDatabasesWithNames; (E2) every reader passes the same privilege-unwrapping argument to AllDatabasesWithNames, so TABLES, COLUMNS, STATISTICS… apply one visibility filter; " +
+			"(E1) common enumeration: each of the ten tables of the property and each catalog-reading SHOW executor calls, inside its loop over all databases, the catalog interfaces that own the listed objects (GetTableNames/DBTableIter, ViewsInDatabase = ViewDatabase.AllViews + session view registry, GetIndexes, GetDeclaredForeignKeys, GetChecks, GetTriggers, GetStoredProcedures), the databases coming from AllDatabasesWithNames; and, for table-, view-, index-, foreign-key- and check-level listings, the loop over the enumerated objects (or the DBTableIter callback) builds output rows; (E2) every reader passes the same privilege-unwrapping argument to AllDatabasesWithNames, so TABLES, COLUMNS, STATISTICS… apply one visibility filter; " +
 			"(X1) error discipline: the error result of every catalog enumeration call in a reader or SHOW executor is bound and reaches a return statement that propagates it (named exceptions: the dropped referenced table in REFERENTIAL_CONSTRAINTS, the no-auto-increment sentinel); " +
 			"(S1) no carry-over between listed objects: a variable that is declared outside an enumeration loop/callback, assigned inside it and placed in an output row is assigned on every path of the iteration before the row is built, so one object's row never shows the previous object's value.",
 		NotCovered: "That the listed contents equal a catalog model after arbitrary DDL histories (values of names, definitions, ordinal positions, privileges filtering of individual rows); elements of static type interface{} and literal nil (skipped by L2, counted in a note); whether a string element holds the right attribute among several string columns; rows built by forms outside the read subset (reported as notes); who fills ShowIndexes.IndexesToShow / ShowTriggers.Triggers / ShowCreateTable.Indexes and ROUTINES' procedure map (planbuilder/analyzer, not loaded in the quick tier); type-switch subjects are assumed to be the same child node on both sides; view definitions that fail to re-parse are skipped by the engine on purpose (not an enumeration error); concurrency of the shared table objects.",
@@ -40,6 +40,7 @@ type c43Need struct {
 	what    string   // what the reader must enumerate
 	anyOf   []string // FullName-style suffixes (pkgRel.Type.Method / pkgRel.Func) of which one must be called
 	perDB   bool     // must occur inside the loop over the databases
+	emits   bool     // the loop over the enumerated objects (or the DBTableIter callback) must build output rows
 	comment string
 }
 
@@ -63,11 +64,11 @@ type c43Cfg struct {
 
 func c43RepoCfg() c43Cfg {
 	dbs := c43Need{what: "all databases", anyOf: []string{"sql/information_schema.AllDatabasesWithNames"}}
-	tables := c43Need{what: "table names of each database", anyOf: []string{"sql.DBTableIter", "sql.Database.GetTableNames"}, perDB: true}
-	views := c43Need{what: "views of each database (persisted + session registry)", anyOf: []string{"sql/information_schema.ViewsInDatabase"}, perDB: true}
-	indexes := c43Need{what: "indexes of each table", anyOf: []string{"sql.IndexAddressable.GetIndexes"}, perDB: true}
-	fks := c43Need{what: "declared foreign keys of each table", anyOf: []string{"sql.ForeignKeyTable.GetDeclaredForeignKeys"}, perDB: true}
-	checks := c43Need{what: "check constraints of each table", anyOf: []string{"sql.CheckTable.GetChecks"}, perDB: true}
+	tables := c43Need{what: "table names of each database", anyOf: []string{"sql.DBTableIter", "sql.Database.GetTableNames"}, perDB: true, emits: true}
+	views := c43Need{what: "views of each database (persisted + session registry)", anyOf: []string{"sql/information_schema.ViewsInDatabase"}, perDB: true, emits: true}
+	indexes := c43Need{what: "indexes of each table", anyOf: []string{"sql.IndexAddressable.GetIndexes"}, perDB: true, emits: true}
+	fks := c43Need{what: "declared foreign keys of each table", anyOf: []string{"sql.ForeignKeyTable.GetDeclaredForeignKeys"}, perDB: true, emits: true}
+	checks := c43Need{what: "check constraints of each table", anyOf: []string{"sql.CheckTable.GetChecks"}, perDB: true, emits: true}
 	triggers := c43Need{what: "triggers of each database", anyOf: []string{"sql.TriggerDatabase.GetTriggers"}, perDB: true}
 	return c43Cfg{
 		isRel: "sql/information_schema", sqlRel: "sql", planRel: "sql/plan", execRel: "sql/rowexec",
@@ -86,16 +87,21 @@ func c43RepoCfg() c43Cfg {
 			"triggersRowIter":               {dbs, triggers},
 			"viewsRowIter":                  {dbs, views},
 			"routinesRowIter":               {{what: "the database of each routine group", anyOf: []string{"sql.DatabaseProvider.Database", "sql.Catalog.Database"}}},
+			"allDatabasesWithNames": {{what: "all databases of the catalog", anyOf: []string{"sql.DatabaseProvider.AllDatabases", "sql.Catalog.AllDatabases"}}},
+			"DBTableIter": {
+				{what: "table names of the database", anyOf: []string{"sql.Database.GetTableNames"}},
+				{what: "each named table", anyOf: []string{"sql.Database.GetTableInsensitive"}},
+			},
 			"ViewsInDatabase": {
 				{what: "views persisted by the database", anyOf: []string{"sql.ViewDatabase.AllViews"}},
 				{what: "views of the session registry", anyOf: []string{"sql.ViewRegistry.ViewsInDatabase"}},
 			},
 			"BaseBuilder.buildShowTables": {
-				{what: "table names of the database", anyOf: []string{"sql.Database.GetTableNames"}},
-				{what: "views persisted by the database", anyOf: []string{"sql.ViewDatabase.AllViews"}},
-				{what: "views of the session registry", anyOf: []string{"sql.ViewRegistry.ViewsInDatabase"}},
+				{what: "table names of the database", anyOf: []string{"sql.Database.GetTableNames"}, emits: true},
+				{what: "views persisted by the database", anyOf: []string{"sql.ViewDatabase.AllViews"}, emits: true},
+				{what: "views of the session registry", anyOf: []string{"sql.ViewRegistry.ViewsInDatabase"}, emits: true},
 			},
-			"BaseBuilder.buildShowTableStatus":     {{what: "table names of the database", anyOf: []string{"sql.Database.GetTableNames"}}},
+			"BaseBuilder.buildShowTableStatus":     {{what: "table names of the database", anyOf: []string{"sql.Database.GetTableNames"}, emits: true}},
 			"BaseBuilder.buildShowCreateTable":     {{what: "declared foreign keys of the table", anyOf: []string{"sql.ForeignKeyTable.GetDeclaredForeignKeys"}}},
 			"BaseBuilder.buildShowCreateTrigger":   {{what: "triggers of the database", anyOf: []string{"sql.TriggerDatabase.GetTriggers"}}},
 			"BaseBuilder.buildShowCreateProcedure": {{what: "stored procedures of the database", anyOf: []string{"sql.StoredProcedureDatabase.GetStoredProcedures"}}},
@@ -127,7 +133,7 @@ func c43RepoCfg() c43Cfg {
 			"ColumnsTable.allColsWithDefaultValue": "per-statement column memo; M1 requires ColumnsTable to be constructed afresh by GetTableInsensitive",
 			"informationSchemaPartitionIter.pos":   "cursor of the single-partition iterator",
 		},
-		floors: map[string]int{"L1": 71, "R1": 150, "R2": 32, "M1": 90, "E1": 39, "E2": 16, "X1": 65, "S1": 6},
+		floors: map[string]int{"L1": 71, "R1": 150, "R2": 32, "M1": 90, "E1": 64, "E2": 16, "X1": 65, "S1": 6},
 	}
 }
 
@@ -139,7 +145,10 @@ func c43FixtureCfg() c43Cfg {
 		needs: map[string][]c43Need{
 			"tablesRowIter": {
 				{what: "all databases", anyOf: []string{"testdata/c43/is.AllDatabasesWithNames"}},
-				{what: "table names of each database", anyOf: []string{"testdata/c43/sql.Database.GetTableNames"}, perDB: true},
+				{what: "table names of each database", anyOf: []string{"testdata/c43/sql.Database.GetTableNames"}, perDB: true, emits: true},
+			},
+			"emptiedRowIter": {
+				{what: "table names of each database", anyOf: []string{"testdata/c43/sql.Database.GetTableNames"}, perDB: true, emits: true},
 			},
 			"indexesRowIter": {
 				{what: "all databases", anyOf: []string{"testdata/c43/is.AllDatabasesWithNames"}},
@@ -181,6 +190,7 @@ var c43FixtureWant = []string{
 	"C43-M1:memo/memoTable.cols",
 	"C43-E1:indexesRowIter/indexes of each table",
 	"C43-E1:currentOnlyRowIter/table names of each database",
+	"C43-E1:emptiedRowIter/table names of each database: rows",
 	"C43-E2:currentOnlyRowIter/AllDatabasesWithNames(true)",
 	"C43-X1:indexesRowIter/Database.GetTableInsensitive",
 	"C43-X1:swallowRowIter/IndexAddressable.GetIndexes",
